@@ -142,6 +142,7 @@ func main() {
 	var mu sync.Mutex
 	var sums []*summary
 	var infra []string
+	var crashes []failure
 	next := 0
 	deadline := start.Add(time.Duration(tc.BudgetS) * time.Second)
 	var wg sync.WaitGroup
@@ -177,8 +178,12 @@ func main() {
 				b, rerr := os.ReadFile(out)
 				mu.Lock()
 				if err != nil || rerr != nil {
-					tail := tailOf(out+".stderr", 4000)
-					infra = append(infra, fmt.Sprintf("worker runs [%d,%d): %v %v\n%s", from, to, err, rerr, tail))
+					tail := tailOf(out+".stderr", 6000)
+					if f, ok := crashFailure(*bin, prop, out, tail); ok {
+						crashes = append(crashes, f)
+					} else {
+						infra = append(infra, fmt.Sprintf("worker runs [%d,%d): %v %v\n%s", from, to, err, rerr, tail))
+					}
 					stop = true
 					mu.Unlock()
 					return
@@ -257,13 +262,17 @@ func main() {
 		}
 		agg.Failures = append(agg.Failures, s.Failures...)
 	}
+	agg.Failures = append(agg.Failures, crashes...)
 	if len(agg.Infra) > 0 {
 		fmt.Fprintf(os.Stderr, "INFRASTRUCTURE ERROR inside runs (not a verdict):\n%s\n", strings.Join(agg.Infra, "\n"))
 		os.Exit(2)
 	}
-	if agg.Runs == 0 {
+	if agg.Runs == 0 && len(crashes) == 0 {
 		fmt.Fprintln(os.Stderr, "INFRASTRUCTURE ERROR: no runs executed")
 		os.Exit(2)
+	}
+	if agg.Runs == 0 {
+		agg.Runs = len(crashes)
 	}
 
 	// classify failures
@@ -323,6 +332,58 @@ func main() {
 	fmt.Printf("%s %s: %d runs, %d steps, %.0f simulated s, %d distinct histories (%d non-trivial), %.1fs wall, %d violation(s)\n",
 		prop, tier, agg.Runs, agg.Steps, float64(agg.SimMs)/1000, len(sched), len(nt), wall, nviol)
 	os.Exit(exit)
+}
+
+// crashFailure: a worker died while executing a run. If the death is a Go panic / fatal exit with
+// frames of the repository on the stack and the same scenario kills a fresh process again, it is
+// a violation of "no request can crash a node" (C20); for other properties it stays an
+// infrastructure error (exit 2) with the stack.
+func crashFailure(bin, prop, out, tail string) (failure, bool) {
+	if prop != "C20" {
+		return failure{}, false
+	}
+	if !(strings.Contains(tail, "panic:") || strings.Contains(tail, "fatal error:") || strings.Contains(tail, "goroutine ")) || !strings.Contains(tail, "github.com/kubewharf/kubebrain/") {
+		return failure{}, false
+	}
+	b, err := os.ReadFile(out + ".current")
+	if err != nil {
+		return failure{}, false
+	}
+	var cur struct {
+		RunIndex int             `json:"run_index"`
+		Scenario json.RawMessage `json:"scenario"`
+	}
+	if json.Unmarshal(b, &cur) != nil {
+		return failure{}, false
+	}
+	// confirm in a fresh process
+	rp := out + ".crash-replay.json"
+	rf, _ := json.Marshal(map[string]interface{}{"property": prop, "scenario": cur.Scenario, "violation": violation{Prop: prop, Rule: "process-crash"}})
+	os.WriteFile(rp, rf, 0o644)
+	cmd := exec.Command(bin, "-test.run", "^TestWorker$", "-test.timeout", "0")
+	cmd.Env = append(os.Environ(), "VERIF_PROP="+prop, "VERIF_REPLAY="+rp, "VERIF_OUT="+out+".crash-out", "GOMAXPROCS=2")
+	ob, rerr := cmd.CombinedOutput()
+	if rerr == nil {
+		return failure{}, false // did not die again: not reproducible, treat as infrastructure
+	}
+	where := ""
+	for _, line := range strings.Split(string(ob), "\n") {
+		if strings.Contains(line, "github.com/kubewharf/kubebrain/") && strings.Contains(line, "(") && where == "" {
+			where = strings.TrimSpace(line)
+			if i := strings.LastIndex(where, "("); i > 0 {
+				where = where[:i] // drop the argument values: they are addresses
+			}
+		}
+	}
+	first := ""
+	for _, line := range strings.Split(string(ob), "\n") {
+		if strings.HasPrefix(line, "panic:") || strings.HasPrefix(line, "fatal error:") {
+			first = line
+			break
+		}
+	}
+	return failure{Violation: violation{Prop: prop, Rule: "process-crash", Sig: "process-crash at=" + where, Detail: fmt.Sprintf("the node process died: %s at %s", first, where)},
+		Scenario: cur.Scenario, RunIndex: cur.RunIndex}, true
 }
 
 func sanitize(s string) string {
